@@ -9,7 +9,7 @@
 
 use soroban_sdk::{contract, contractimpl, contracttype, Address, BytesN, Env, Symbol, Val, Vec};
 use stellar_governance::timelock::{
-    cancel_operation, execute_operation, get_min_delay as timelock_get_min_delay, get_operation_ledger,
+    cancel_operation, execute_operation, set_execute_operation, get_min_delay as timelock_get_min_delay, get_operation_ledger,
     get_operation_state, hash_operation as timelock_hash_operation, is_operation_done, is_operation_pending,
     is_operation_ready, operation_exists, schedule_operation, set_min_delay as timelock_set_min_delay, Operation,
     OperationState,
@@ -45,6 +45,12 @@ impl TimelockWrap {
         salt: BytesN<32>,
     ) -> Val {
         execute_operation(e, &Operation { target, function, args, predecessor, salt })
+    }
+
+    /// The library's second execution entry point: marks the operation executed without invoking
+    /// the target (what a self-administered controller does from `__check_auth`).
+    pub fn mark_executed(e: &Env, target: Address, function: Symbol, args: Vec<Val>, predecessor: BytesN<32>, salt: BytesN<32>) {
+        set_execute_operation(e, &Operation { target, function, args, predecessor, salt });
     }
 
     pub fn cancel(e: &Env, operation_id: BytesN<32>) {
